@@ -32,6 +32,9 @@ CHECKS.update({
  "C08": ("fault_enumeration","termination-cause enumeration through the fault proxy + prefix/closure monitor, child-process survival for double close",
    "Causes {handler close, subscription cancel, FIN/RST/BLACKHOLE at the k-th value frame x 5 byte positions, client close} x instants (before the channel-id response, after k values, values buffered behind a slow consumer) x pairwise races x windows W1 and W5; once the cause is logically established the drained channel must be closed within the grace, and what was received must be a prefix of what the handler sent; a double close kills the child and is attributed to the scenario.",
    "8 s grace after establishment; interleavings sampled plus two targeted windows.","2/C08"),
+ "C18": ("fault_enumeration","closer fired from inside every hook point x occurrence of a mixed workload + completion monitor",
+   "A mixed workload (concurrent calls, held call, multi-frame response, streams, a cancelled call and subscription, a cut with a refused redial, calls in the reconnect window, work after the reconnect) is run once per (client-side hook point, occurrence); the closer is fired asynchronously from inside that hook. Then: the closer returns, every outstanding call returned, 20 later calls return errors, every client channel is closed, and no redial hook event or proxy accept is sequenced after the closer's return; http/custom closers during calls in progress must not disturb them.",
+   "Instants are the hook points (21 points x up to 12 occurrences); 8 s grace.","2/C18"),
 })
 NA={}
 def main():
